@@ -437,6 +437,9 @@ func (r *runner) contentFinding(p, exp, got string, st *mState) finding {
 	case isKey && len(r.changedSinceSigning()) > 0:
 		fs := strings.Join(r.changedSinceSigning(), "+")
 		return finding{"field-unsigned/" + kind + "/" + fs, fmt.Sprintf("%s: after changing %s the old signature still yields sender %s", kind, fs, got), rec}
+	case exp != "k1" && exp != "k2" && st.Sig.mustReject():
+		cls := "r=" + st.Sig.R + ",s=" + st.Sig.S + ",v=" + st.Sig.Rec
+		return finding{"malformed-sig-not-rejected/" + kind, fmt.Sprintf("%s: signature values of class %s are not rejected (the code recovers an address: %q)", kind, cls, got), rec}
 	case isKey:
 		return finding{"chain-param-unbound/" + kind, fmt.Sprintf("%s: sender %s is recovered under chain parameter %s although the signature was not made for it", kind, got, r.P(p)), rec}
 	default:
